@@ -4,3 +4,5 @@ mod c02;
 mod c08;
 mod c09;
 mod c11;
+mod c12;
+pub mod io;
